@@ -189,5 +189,5 @@ Example quotient_min_fixnum_by_bignum_ex :   (* F-C04-3: the pinned code answere
   num_quotient 4 8 (Fix FIXMIN) (Big 1 [FIXMAX + 1]) = NV (Fix (-1))
   /\ num_remainder 4 8 (Fix FIXMIN) (Big 1 [FIXMAX + 1]) = NV (Fix 0).
 Proof. vm_compute. split; reflexivity. Qed.
-Example expt_example : bignum_expt 8 16 (-1, [3]) 41 = Some (Big (-1) [36472996377170786403]).
+Example expt_example : bignum_expt 8 16 (-1, [3]) 41 = Some (Big (-1) [18026252303461234787; 1]).
 Proof. vm_compute. reflexivity. Qed.
